@@ -69,3 +69,8 @@ claim('C18',
       note="Trusted: harness/refs/lowpass_enum.py (itertools enumeration, math.factorial, numpy.convolve). RNGs (LowPass.rng, numpy global) seeded from the case. The simulated regime is only checked for the inequality and non-negativity, not against an oracle (it is Monte Carlo).",
       technique="exhaustive enumeration of partitions plus property-based testing (Hypothesis) against brute-force enumeration oracles",
       design_ref="DESIGN.md 3/C18")
+claim('C17',
+      text="Caches built from generated synthetic selection models are integrated over generated 1-D and 2-D DFEs and compared with an independent quadrature whose tail, edge and corner masses come from closed-form cdfs; linearity in theta; point masses and mixtures with their stated weights; selection-blind models must return theta x S x total weight; caches built with 1-16 processes and with 1-6 split jobs (alternating single- and multi-process builders) must be bitwise equal to the single-process cache; models raising on a chosen gamma, missing job subsets and conflicting duplicates must be reported, exact duplicates accepted; compiled bivariate densities against the reference formulas and a scipy-based third implementation.",
+      note="Trusted: harness/refs/dfe_quad.py (scipy.stats cdfs, multivariate normal cdf). 2-D tolerance: 2e-3 relative plus (3e-4 + 1e-2 x probability mass outside the cached grid) absolute - the code asks scipy.integrate for 1e-3. DFEs whose marginal median lies beyond twice the largest cached gamma are not judged (adaptive quadrature on a semi-infinite interval can miss their peak). OS scheduling is not controlled: worker count and job split are.",
+      technique="property-based differential testing (Hypothesis) against closed-form-cdf quadrature; schedule variation (worker count / job split) with bitwise comparison; injected faults",
+      design_ref="DESIGN.md 3/C17")
